@@ -24,7 +24,7 @@ Definition obind {X Y} (o : option X) (f : X -> option Y) : option Y :=
   match o with Some x => f x | None => None end.
 
 Section Impl.
-Context (A : Alg) (db : database).
+Context (A : Alg) (db : database) (v : variant).
 
 (* read(2) of ns samples at sample offset off of the data file *)
 Definition file_read (data : list Z) (off ns : Z) : list Z :=
@@ -42,7 +42,9 @@ Definition raw_read (rt : ctype) (id : N) (s n : Z) : option (list (V A)) :=
   (* if (ns > 0 || (zero_pad && s0 >= 0)) _GD_Seek(D, E, s0): GD_E_RANGE for a negative position *)
   if ((0 <? ns) || ((0 <? zero_pad) && (0 <=? s0))) && (s0 <? 0) then None else
   let got := if 0 <? ns then file_read (r_data r) (s0 - st) ns else [] in
-  Some (repeatZ (raw_pad A rt (r_ty r)) zeroed ++ map (dec A rt (r_ty r)) got).
+  (* the padding is made in the native type and converted with the data, or (C01-3) in the return type *)
+  let padv := if v_rawpad v then pad A rt else raw_pad A rt (r_ty r) in
+  Some (repeatZ padv zeroed ++ map (dec A rt (r_ty r)) got).
 
 (* buffer element i; beyond what was written: whatever the memory held *)
 Definition buf (l : list (V A)) (i : Z) : V A := nthZ l i (garbage A).
@@ -63,63 +65,69 @@ Fixpoint last_match (cnt : Z) (L : list (V A)) (pos : Z) (acc : option Z) : opti
   | b :: L' => last_match cnt L' (pos + 1) (if mplex_match A cnt b then Some pos else acc)
   end.
 
+(* first sample of a second input and the alignment remainder handed to the
+   kernel: first_samp*spf2/spf1 with C truncation and no remainder, or (C01-2)
+   the floor and (first_samp*spf2) mod spf1 *)
+Definition first2 (s s1 s2 : Z) : Z := if v_align v then s * s2 / s1 else Z.quot (s * s2) s1.
+Definition rem2 (s s1 s2 : Z) : Z := if v_align v then (s * s2) mod s1 else 0.
+
 Fixpoint impl_read (rt : ctype) (f : field) (s n : Z) {struct f} : option (list (V A)) :=
   match f with
   | Raw id => raw_read rt id s n
   | Index => Some (map (index_val A rt) (zrange s n))
   | Phase g sh => impl_read rt g (s + sh) n
   | Un o g =>
-      if u_alloc o && (n =? 0) then None      (* _GD_Alloc(.., 0): GD_E_INTERNAL_ERROR *)
+      if negb (v_alloc0 v) && u_alloc o && (n =? 0) then None      (* _GD_Alloc(.., 0): GD_E_INTERNAL_ERROR *)
       else obind (impl_read (u_in o rt) g s n) (fun X => Some (map (ukern A o rt) X))
   | Bin o g h =>
       obind (impl_read rt g s n) (fun X =>
       let n1 := zlen X in
       if n1 =? 0 then Some [] else
       let s1 := spf db g in let s2 := spf db h in
-      let num2 := cdiv (n1 * s2) s1 in
-      let first2 := Z.quot (s * s2) s1 in
-      obind (impl_read (b_in2 o) h first2 num2) (fun Y =>
+      let r := rem2 s s1 s2 in
+      obind (impl_read (b_in2 o) h (first2 s s1 s2) (cdiv (r + n1 * s2) s1)) (fun Y =>
       let n2 := zlen Y in
-      if b_lincom o then
-        if n2 =? 0 then Some [] else
-        let n1' := if n2 * s1 <? n1 * s2 then n2 * s1 / s2 else n1 in
-        Some (map (fun i => bkern A o rt (buf X i) (buf Y (i * s2 / s1))) (zrange 0 n1'))
-      else
-        let n1' := if (0 <? n2) && (n2 * s1 <? n1 * s2) then n2 * s1 / s2 else n1 in
-        Some (map (fun i => bkern A o rt (buf X i) (buf Y (i * s2 / s1))) (zrange 0 n1'))))
+      if n2 =? 0 then Some [] else
+      (* r = 0: the code's test n_read2*spf1 < n_read*spf2 is (n_read2*spf1)/spf2 < n_read *)
+      let n1' := alim n2 n1 s1 s2 r in
+      Some (map (fun i => bkern A o rt (buf X i) (buf Y ((r + i * s2) / s1))) (zrange 0 n1'))))
   | Tri o g h l =>
       obind (impl_read rt g s n) (fun X =>
       let n1 := zlen X in
       if n1 =? 0 then Some [] else
       let s1 := spf db g in let s2 := spf db h in let s3 := spf db l in
-      obind (impl_read F64 h (Z.quot (s * s2) s1) (cdiv (n1 * s2) s1)) (fun Y =>
+      let r2 := rem2 s s1 s2 in let r3 := rem2 s s1 s3 in
+      obind (impl_read F64 h (first2 s s1 s2) (cdiv (r2 + n1 * s2) s1)) (fun Y =>
       let n2 := zlen Y in
       if n2 =? 0 then Some [] else
-      let n1' := if n2 * s1 <? n1 * s2 then n2 * s1 / s2 else n1 in
-      if cdiv (n1' * s3) s1 =? 0 then None    (* _GD_Alloc(ntype, 0): GD_E_INTERNAL_ERROR *)
+      let n1' := alim n2 n1 s1 s2 r2 in
+      if n1' =? 0 then
+        (* C01-2 returns 0 here; otherwise num_samp3 = 0 goes to _GD_Alloc *)
+        (if v_align v || v_alloc0 v then Some [] else None)
       else
-      obind (impl_read F64 l (Z.quot (s * s3) s1) (cdiv (n1' * s3) s1)) (fun W =>
+      obind (impl_read F64 l (first2 s s1 s3) (cdiv (r3 + n1' * s3) s1)) (fun W =>
       let n3 := zlen W in
       if n3 =? 0 then Some [] else
-      let n1'' := if n3 * s1 <? n1' * s3 then n3 * s1 / s3 else n1' in
-      Some (map (fun i => tkern A o rt (buf X i) (buf Y (i * s2 / s1)) (buf W (i * s3 / s1)))
+      let n1'' := alim n3 n1' s1 s3 r3 in
+      Some (map (fun i => tkern A o rt (buf X i) (buf Y ((r2 + i * s2) / s1)) (buf W ((r3 + i * s3) / s1)))
                 (zrange 0 n1'')))))
   | Mplex g h cnt _ =>
       obind (impl_read rt g s n) (fun X =>
       let n1 := zlen X in
       if n1 =? 0 then Some [] else
       let s1 := spf db g in let s2 := spf db h in
-      let num2 := cdiv (n1 * s2) s1 in
-      let first2 := Z.quot (s * s2) s1 in
-      obind (impl_read I32 h first2 num2) (fun Y =>
+      let r := rem2 s s1 s2 in
+      let f2 := first2 s s1 s2 in
+      obind (impl_read I32 h f2 (cdiv (r + n1 * s2) s1)) (fun Y =>
       let n2 := zlen Y in
+      if n2 =? 0 then Some [] else
       obind
         (if mplex_match A cnt (buf Y 0) then Some (pad A rt)
          else
            obind
-             (if first2 <=? 0 then Some (pad A rt)
+             (if f2 <=? 0 then Some (pad A rt)
               else
-                obind (impl_read I32 h 0 first2) (fun L =>
+                obind (impl_read I32 h 0 f2) (fun L =>
                 match last_match cnt L 0 None with
                 | Some j =>
                     obind (impl_read rt g (j * s1 / s2) 1) (fun R => Some (hd (pad A rt) R))
@@ -127,12 +135,12 @@ Fixpoint impl_read (rt : ctype) (f : field) (s n : Z) {struct f} : option (list 
                 end))
              (fun st =>
               (* "put the I/O pointers back": a failing _GD_Seek leaves D->error set *)
-              if seek_ok g (s + n1) && seek_ok h (first2 + n2) then Some st else None))
+              if seek_ok g (s + n1) && seek_ok h (f2 + n2) then Some st else None))
         (fun start =>
-      let n1' := if (0 <? n2) && (n2 * s1 <? n1 * s2) then n2 * s1 / s2 else n1 in
+      let n1' := alim n2 n1 s1 s2 r in
       Some (mplex_fold cnt start
               (map (buf X) (zrange 0 n1'))
-              (map (fun i => buf Y (i * s2 / s1)) (zrange 0 n1'))))))
+              (map (fun i => buf Y ((r + i * s2) / s1)) (zrange 0 n1'))))))
   end.
 
 Definition read_count (rt : ctype) (f : field) (s n : Z) : option Z :=
